@@ -134,9 +134,20 @@ func (u *provider) Headroom() int {
 }
 
 func (u *provider) SetDispatchPorts(start, end, redirect uint16) {
+	u.mu.Lock()
+	defer u.mu.Unlock()
 	u.dispatchStart = start
 	u.dispatchEnd = end
 	u.dispatchRedirect = redirect
+	// The internal link keeps its own copy (it is consulted for every delivered packet). If it
+	// was created before the range is configured, bring it up to date.
+	if u.internalConnection != nil {
+		if il, ok := u.internalConnection.link.(*internalLink); ok {
+			il.dispatchStart = start
+			il.dispatchEnd = end
+			il.dispatchRedirect = redirect
+		}
+	}
 }
 
 // AddSvc adds the address for the given service.
@@ -975,7 +986,7 @@ func (l *internalLink) Resolve(p *router.Packet, dst addr.Host, port uint16) err
 		panic(fmt.Sprintf("unexpected address type returned from DstAddr: %s", dst.Type()))
 	}
 	// if port is outside the configured port range we send to the fixed port.
-	if port < l.dispatchStart && port > l.dispatchEnd {
+	if port < l.dispatchStart || port > l.dispatchEnd {
 		port = l.dispatchRedirect
 	}
 
